@@ -129,7 +129,37 @@ func (p *Parser) parseOperator() error {
 	// Clear operand stack
 	p.operandStack = nil
 
+	// ID begins the sample data of an inline image: raw bytes up to the EI
+	// operator, not tokens
+	if operator == "ID" {
+		p.skipInlineImageData()
+	}
+
 	return nil
+}
+
+// skipInlineImageData moves past the data of an inline image, leaving the
+// position at the EI operator that ends it (or at the end of the input). The
+// data follow a single white-space character after ID and end before an EI that
+// stands between white space (or at the end of the stream).
+func (p *Parser) skipInlineImageData() {
+	if p.pos < len(p.data) && isWhitespace(p.data[p.pos]) {
+		p.pos++
+	}
+	for i := p.pos; i+1 < len(p.data); i++ {
+		if p.data[i] != 'E' || p.data[i+1] != 'I' {
+			continue
+		}
+		if i > p.pos && !isWhitespace(p.data[i-1]) {
+			continue
+		}
+		if i+2 < len(p.data) && !isWhitespace(p.data[i+2]) {
+			continue
+		}
+		p.pos = i
+		return
+	}
+	p.pos = len(p.data)
 }
 
 // parseOperand parses a single operand, which can be a number, string, name,
